@@ -1501,7 +1501,18 @@ aiff_write_header (SF_PRIVATE *psf, int calc_length)
 
 	/* Write SSND chunk. */
 	paiff->ssnd_offset = psf->header.indx ;
-	psf_binheader_writef (psf, "Etm844", BHWm (SSND_MARKER), BHW8 (psf->datalength + SIZEOF_SSND_CHUNK), BHW4 (0), BHW4 (0)) ;
+	if (has_data && psf->header.indx + 8 + SIZEOF_SSND_CHUNK < psf->dataoffset)
+	{	/*
+		** The header has become shorter than the one the audio data was written
+		** behind (a string in it was replaced after the audio). Use the offset field
+		** of the SSND chunk to keep the audio data where it is.
+		*/
+		size_t pad = psf->dataoffset - (psf->header.indx + 8 + SIZEOF_SSND_CHUNK) ;
+
+		psf_binheader_writef (psf, "Etm844z", BHWm (SSND_MARKER), BHW8 (psf->datalength + SIZEOF_SSND_CHUNK + pad), BHW4 (pad), BHW4 (0), BHWz (pad)) ;
+		}
+	else
+		psf_binheader_writef (psf, "Etm844", BHWm (SSND_MARKER), BHW8 (psf->datalength + SIZEOF_SSND_CHUNK), BHW4 (0), BHW4 (0)) ;
 
 	/* Header construction complete so write it out. */
 	psf_fwrite (psf->header.ptr, psf->header.indx, 1, psf) ;
